@@ -63,7 +63,10 @@ Seeds ==
      <<"1e-400", 0, 1, 10, -400, 0>>, <<"1e-400", 1, 1, 10, -400, 0>>, <<"1e-400", 0, 11, 10, -401, 0>>, <<"3^-250", 0, 1, 3, -250, 0>>,
      <<"16^-300", 0, 1, 16, -300, 0>>, <<"36^-200", 0, 1, 36, -200, 0>>,
      <<"rat", 0, 1, 3, 0, 0>>, <<"rat", 1, 1, 3, 0, 0>>, <<"rat", 0, 2, 3, 0, 0>>, <<"rat", 0, 22, 7, 0, 0>>,
-     <<"ratbig", 0, 1, 0, 0, 0>>, <<"ratbig", 0, 2, 0, 0, 0>> >>
+     <<"ratbig", 0, 1, 0, 0, 0>>, <<"ratbig", 0, 2, 0, 0, 0>>,
+     \* multiples and neighbours of the NumHash modulus 2^127 - 1 (the residue must be taken, not the number itself)
+     <<"hashmod", 1, 1, 2, 127, -1>>, <<"hashmod", 0, 2, 2, 127, -2>>, <<"hashmod", 1, 3, 2, 127, -3>>, <<"hashmod", 0, 1, 2, 127, -2>>,
+     <<"hashmod", 0, 2, 2, 127, -1>>, <<"hashmod", 0, 1, 2, 254, -1>> >>
 NSeeds == Len(Seeds)
 \* significands too wide for a native literal, by (negative) code
 Wide(m) == CASE m = -1 -> Sub(P2(53), One) [] m = -2 -> P2(53) [] m = -3 -> Tenth53 [] m = -4 -> Sub(Tenth53, One) [] OTHER -> FromNat(m)
@@ -84,7 +87,7 @@ Eval(sd) ==
            pw == Pow(FromNat(sd[4]), IF sd[5] >= 0 THEN sd[5] ELSE -sd[5])
            int == sd[5] >= 0
            mag0 == IF int THEN Mul(m, pw) ELSE <<>>
-           mag == IF sd[6] = 1 THEN Add(mag0, One) ELSE IF sd[6] = -1 THEN Sub(mag0, One) ELSE mag0
+           mag == IF sd[6] > 0 THEN Add(mag0, FromNat(sd[6])) ELSE IF sd[6] < 0 THEN Sub(mag0, FromNat(-sd[6])) ELSE mag0
            \* with a delta the value is no longer m * base^exp: it is rendered as an integer only
            own == sd[6] = 0
        IN [cls |-> sd[1], s |-> sd[2], rat |-> ~own, sig |-> m, base |-> sd[4], exp |-> sd[5], isint |-> int, mag |-> mag,
@@ -137,7 +140,7 @@ NSpecials == Len(Specials)
 VARIABLES phase, a, r
 vars == <<phase, a, r>>
 \* a in 1..NSeeds: a seed; a in NSeeds+1 .. NSeeds+NSpecials: a special
-Kept(i) == i > NSeeds \/ Stride = 1 \/ i <= 6 \/ (i + Seed) % Stride = 0
+Kept(i) == i > NSeeds \/ Stride = 1 \/ i <= 6 \/ (i + Seed) % Stride = 0 \/ Seeds[i][1] \in {"hashmod", "2^127"}
 Init == phase = "pick" /\ a \in {i \in 1..(NSeeds + NSpecials) : Kept(i)} /\ r = 0
 Pick == /\ phase = "pick" /\ phase' = "done" /\ UNCHANGED a
         /\ r' \in (IF a <= NSeeds THEN 1..NRend ELSE {1})
